@@ -49,6 +49,7 @@
 #include <sys/stat.h>
 #include <signal.h>
 #include <malloc.h>
+#include <execinfo.h>
 #include <new>
 
 using namespace stir;
@@ -63,6 +64,7 @@ struct Shared
   volatile int stage;                       // 1 = inside the STIR entry point, 2 = inside the oracle
   volatile unsigned long long alloc_req;    // largest single request refused by the cap during the current mutant
   volatile int alloc_how;                   // 0 none, 1 single request, 2 live bytes
+  char alloc_site[200];
   int nviol; long long viol_dropped; SharedViol viol[32];
   int ncount; SharedCounter counts[600];
   int nobs; char obs[16][500];
@@ -76,8 +78,10 @@ static void sh_count(const std::string& name, long long n = 1)
   for (int i = 0; i < SH->ncount; ++i) if (name == SH->counts[i].name) { SH->counts[i].v += n; return; }
   if (SH->ncount < 600) { snprintf(SH->counts[SH->ncount].name, 120, "%s", name.c_str()); SH->counts[SH->ncount].v = n; SH->ncount++; }
 }
-static void sh_violation(const std::string& key, const std::string& kase, const std::string& msg)
+static std::string g_desc;
+static void sh_violation(const std::string& key, const std::string& kase, const std::string& msg0)
 {
+  const std::string msg = g_desc.empty() ? msg0 : msg0 + " | mutation: " + g_desc;
   sh_count("violating_cases_seen_by_child");
   for (int i = 0; i < SH->nviol; ++i) if (key == SH->viol[i].key) { SH->viol_dropped++; return; } // first (simplest) case per key is kept
   if (SH->nviol >= 32) { SH->viol_dropped++; return; }
@@ -104,17 +108,19 @@ static void sh_drain(vmc::Ctx& ctx)
 // operator new is replaced (the executable's definition wins over the sanitizer's): a single request above the cap, or
 // more than the live cap outstanding, is recorded and refused with std::bad_alloc.  Memory still comes from malloc, so
 // AddressSanitizer keeps its red zones.
+static const size_t ALLOC_CAP_V = size_t(64) << 20;
 static volatile size_t g_alloc_cap = ~size_t(0);
 static volatile long long g_live = 0, g_live_cap = (1LL << 62);
 static volatile bool g_track = false;
 static const size_t ALLOC_CAP = size_t(64) << 20;   // max(64 MB, 1000 x input) with inputs <= 64 kB
 static const long long LIVE_CAP = 1LL << 30;         // 1 GB outstanding from one small text input
 
+static void note_alloc_site(); // first frame of the library in the call stack of the refused request
 static inline void* cap_alloc(size_t n, size_t align)
 {
   if (n > g_alloc_cap)
     {
-      if (SH && n > SH->alloc_req) { SH->alloc_req = n; SH->alloc_how = 1; }
+      if (SH && n > SH->alloc_req) { SH->alloc_req = n; SH->alloc_how = 1; g_alloc_cap = ~size_t(0); note_alloc_site(); g_alloc_cap = ALLOC_CAP_V; }
       throw std::bad_alloc();
     }
   void* p = nullptr;
@@ -126,7 +132,7 @@ static inline void* cap_alloc(size_t n, size_t align)
       g_live += (long long)malloc_usable_size(p);
       if (g_live > g_live_cap)
         {
-          if (SH && SH->alloc_how == 0) { SH->alloc_req = (unsigned long long)g_live; SH->alloc_how = 2; }
+          if (SH && SH->alloc_how == 0) { SH->alloc_req = (unsigned long long)g_live; SH->alloc_how = 2; g_track = false; note_alloc_site(); g_track = true; }
           g_live -= (long long)malloc_usable_size(p);
           free(p);
           throw std::bad_alloc();
@@ -159,7 +165,7 @@ void operator delete[](void* p, const std::nothrow_t&) noexcept { cap_free(p); }
 
 struct CapScope
 {
-  CapScope() { SH->alloc_req = 0; SH->alloc_how = 0; g_live = 0; g_alloc_cap = ALLOC_CAP; g_live_cap = LIVE_CAP; g_track = true; }
+  CapScope() { SH->alloc_req = 0; SH->alloc_how = 0; SH->alloc_site[0] = 0; g_live = 0; g_alloc_cap = ALLOC_CAP; g_live_cap = LIVE_CAP; g_track = true; }
   ~CapScope() { g_track = false; g_alloc_cap = ~size_t(0); g_live_cap = (1LL << 62); }
 };
 
@@ -203,8 +209,16 @@ static std::string short_text(const std::string& s, size_t n = 160)
   for (char c : s) { if (c == '\n') o += "\\n"; else o += c; if (o.size() >= n) { o += "..."; break; } }
   return o;
 }
-static std::string first_diff(const std::string& a, const std::string& b)
+// parameter texts are compared modulo blank lines (a null sub-object and a trivial one named "None" differ by one empty line only)
+static std::string no_blank_lines(const std::string& t)
 {
+  std::string o;
+  for (auto& l : refp::physical_lines(t)) if (!refp::trim(l).empty()) o += l + "\n";
+  return o;
+}
+static std::string first_diff(const std::string& a0, const std::string& b0)
+{
+  const std::string a = no_blank_lines(a0), b = no_blank_lines(b0);
   auto la = refp::physical_lines(a), lb = refp::physical_lines(b);
   for (size_t i = 0; i < std::max(la.size(), lb.size()); ++i)
     {
@@ -284,8 +298,30 @@ static Crash classify_crash(const std::string& errfile, int status)
 }
 
 extern "C" void __sanitizer_symbolize_pc(void* pc, const char* fmt, char* out_buf, size_t out_buf_size) __attribute__((weak));
+static void note_alloc_site()
+{
+  void* pcs[48];
+  const int n = backtrace(pcs, 48);
+  snprintf(SH->alloc_site, sizeof SH->alloc_site, "unknown");
+  if (!__sanitizer_symbolize_pc) return;
+  for (int i = 1; i < n; ++i)
+    {
+      char buf[1024];
+      buf[0] = 0;
+      __sanitizer_symbolize_pc((char*)pcs[i] - 1, "%f|%s", buf, sizeof buf);
+      const char* bar = strrchr(buf, '|');
+      if (!bar) continue;
+      const std::string file = bar + 1;
+      if (file.find(g_repo + "/src/") != 0 || file.find("/include/stir/VectorWithOffset") != std::string::npos || file.find("/include/stir/Array") != std::string::npos
+          || file.find("/include/stir/NumericVectorWithOffset") != std::string::npos)
+        continue;
+      snprintf(SH->alloc_site, sizeof SH->alloc_site, "%s:%s", file.substr(file.rfind('/') + 1).c_str(), fn_core(std::string(buf, bar - buf)).c_str());
+      return;
+    }
+}
 static void warm_up_symbolizer()
 {
+  { void* pcs[4]; backtrace(pcs, 4); }
   // children inherit the initialised symbolizer, so that a crash report costs milliseconds, not the DWARF start-up
   if (__sanitizer_symbolize_pc)
     {
@@ -614,4 +650,1023 @@ static bool build_seed(const std::string& name, Seed& S)
     return false;
   if (!ok || S.text.empty()) { fprintf(stderr, "seed %s could not be written: %s\n", name.c_str(), what.c_str()); return false; }
   return true;
+}
+
+// ================================================================================================ executing one text through one entry point
+enum OutcomeClass { ACCEPTED = 0, REJECTED_NULL, REJECTED_ERROR, REJECTED_FOREIGN_EXCEPTION };
+struct Outcome
+{
+  int cls = REJECTED_NULL;
+  std::string what, canon;
+  // image-like
+  bool is_image = false; long nx = 0, ny = 0, nz = 0; double vx = 0, vy = 0, vz = 0; long ndatasets = 1;
+  // projection data
+  bool is_projdata = false; long ntang = 0, nviews = 0, nseg = 0, ntof = 0; std::vector<long> nax; bool reads_ok = true; std::string read_err;
+  // multi
+  long nfiles = -1; std::vector<std::string> files;
+};
+
+static std::string canon_exam(const ExamInfo& e)
+{
+  std::ostringstream o; o.precision(6);
+  o << "mod=" << e.imaging_modality.get_name() << ";pos=" << (int)e.patient_position.get_orientation() << "," << (int)e.patient_position.get_rotation()
+    << ";frames=" << e.time_frame_definitions.get_num_frames();
+  for (unsigned i = 1; i <= e.time_frame_definitions.get_num_frames(); ++i) o << "(" << e.time_frame_definitions.get_start_time(i) << "," << e.time_frame_definitions.get_end_time(i) << ")";
+  o << ";rn=" << e.get_radionuclide().get_name() << ";en=" << e.get_low_energy_thres() << "," << e.get_high_energy_thres() << ";cal=" << e.get_calibration_factor()
+    << ";sys=" << e.originating_system;
+  return o.str();
+}
+static std::string canon_image(const VoxelsOnCartesianGrid<float>& v, Outcome& o)
+{
+  o.is_image = true;
+  o.nx = v.get_x_size(); o.ny = v.get_y_size(); o.nz = v.get_z_size();
+  o.vx = v.get_voxel_size().x(); o.vy = v.get_voxel_size().y(); o.vz = v.get_voxel_size().z();
+  std::ostringstream s; s.precision(7);
+  s << "range=" << v.get_min_z() << ":" << v.get_max_z() << "," << v.get_min_y() << ":" << v.get_max_y() << "," << v.get_min_x() << ":" << v.get_max_x() << ";vox=" << o.vz << "," << o.vy << ","
+    << o.vx << ";org=" << v.get_origin().z() << "," << v.get_origin().y() << "," << v.get_origin().x();
+  uint64_t h = 1469598103934665603ULL; double sum = 0; long n = 0;
+  for (auto it = v.begin_all(); it != v.end_all(); ++it) { const float f = *it; h = vmc::fnv(&f, sizeof f, h); sum += f; ++n; } // a read of every element
+  s << ";n=" << n << ";vals=" << std::hex << h << std::dec << ";sum=" << sum;
+  return s.str();
+}
+static std::string canon_projdata(const ProjData& pd, Outcome& o)
+{
+  o.is_projdata = true;
+  const ProjDataInfo& p = *pd.get_proj_data_info_sptr();
+  o.ntang = p.get_num_tangential_poss(); o.nviews = p.get_num_views(); o.nseg = p.get_num_segments(); o.ntof = p.get_num_tof_poss();
+  for (int s = p.get_min_segment_num(); s <= p.get_max_segment_num(); ++s) o.nax.push_back(p.get_num_axial_poss(s));
+  std::ostringstream c; c.precision(7);
+  c << p.parameter_info();
+  uint64_t h = 1469598103934665603ULL; double sum = 0; long n = 0;
+  try
+    {
+      for (int k = p.get_min_tof_pos_num(); k <= p.get_max_tof_pos_num(); ++k)
+        for (int s = p.get_min_segment_num(); s <= p.get_max_segment_num(); ++s)
+          {
+            SegmentByView<float> seg = pd.get_segment_by_view(s, k);
+            for (auto it = seg.begin_all(); it != seg.end_all(); ++it) { const float f = *it; h = vmc::fnv(&f, sizeof f, h); sum += f; ++n; }
+          }
+    }
+  catch (std::exception& e) { o.reads_ok = false; o.read_err = e.what(); }
+  catch (...) { o.reads_ok = false; o.read_err = "non-std exception"; }
+  c << ";n=" << n << ";vals=" << std::hex << h << std::dec << ";sum=" << sum << ";reads_ok=" << o.reads_ok << ";" << canon_exam(pd.get_exam_info());
+  return c.str();
+}
+
+static std::string g_mutant_file;
+
+static void run_entry(const Seed& S, int entry, const std::string& text, Outcome& o)
+{
+  o = Outcome();
+  clear_msgs();
+  try
+    {
+      switch (entry)
+        {
+        case E_IMG_RFF: {
+          spit(g_mutant_file, text);
+          unique_ptr<Dens> d(read_from_file<Dens>(g_mutant_file));
+          if (!d) { o.cls = REJECTED_NULL; break; }
+          const VoxelsOnCartesianGrid<float>* v = dynamic_cast<const VoxelsOnCartesianGrid<float>*>(d.get());
+          if (!v) { o.cls = REJECTED_NULL; o.what = "not a VoxelsOnCartesianGrid"; break; }
+          o.canon = canon_image(*v, o) + ";" + canon_exam(v->get_exam_info());
+          o.cls = ACCEPTED;
+          break;
+        }
+        case E_IMG_STREAM: {
+          std::istringstream in(text);
+          unique_ptr<VoxelsOnCartesianGrid<float>> v(read_interfile_image(in, g_tmp));
+          if (!v) { o.cls = REJECTED_NULL; break; }
+          o.canon = canon_image(*v, o) + ";" + canon_exam(v->get_exam_info());
+          o.cls = ACCEPTED;
+          break;
+        }
+        case E_PD_RFF: {
+          spit(g_mutant_file, text);
+          shared_ptr<ProjData> pd = ProjData::read_from_file(g_mutant_file);
+          if (!pd) { o.cls = REJECTED_NULL; break; }
+          o.canon = canon_projdata(*pd, o);
+          o.cls = ACCEPTED;
+          break;
+        }
+        case E_PD_STREAM: {
+          std::istringstream in(text);
+          unique_ptr<ProjDataFromStream> pd(read_interfile_PDFS(in, g_tmp, std::ios::in));
+          if (!pd) { o.cls = REJECTED_NULL; break; }
+          o.canon = canon_projdata(*pd, o);
+          o.cls = ACCEPTED;
+          break;
+        }
+        case E_DYN_RFF: {
+          spit(g_mutant_file, text);
+          unique_ptr<DynamicDiscretisedDensity> d(read_from_file<DynamicDiscretisedDensity>(g_mutant_file));
+          if (!d) { o.cls = REJECTED_NULL; break; }
+          std::ostringstream c;
+          o.ndatasets = d->get_num_time_frames();
+          c << "frames=" << d->get_num_time_frames() << ";";
+          for (unsigned k = 1; k <= d->get_num_time_frames(); ++k)
+            {
+              const VoxelsOnCartesianGrid<float>* v = dynamic_cast<const VoxelsOnCartesianGrid<float>*>(&d->get_density(k));
+              if (!v) { c << "frame not voxels;"; continue; }
+              c << "[" << canon_image(*v, o) << ";" << canon_exam(v->get_exam_info()) << "]";
+            }
+          c << canon_exam(d->get_exam_info());
+          o.canon = c.str();
+          o.cls = ACCEPTED;
+          break;
+        }
+        case E_PAR_RFF: {
+          spit(g_mutant_file, text);
+          unique_ptr<ParametricVoxelsOnCartesianGrid> d(read_from_file<ParametricVoxelsOnCartesianGrid>(g_mutant_file));
+          if (!d) { o.cls = REJECTED_NULL; break; }
+          std::ostringstream c;
+          o.ndatasets = d->get_num_params();
+          for (unsigned k = 1; k <= d->get_num_params(); ++k)
+            {
+              VoxelsOnCartesianGrid<float> v(d->construct_single_density(k));
+              c << "[" << canon_image(v, o) << "]";
+            }
+          c << canon_exam(d->get_exam_info());
+          o.canon = c.str();
+          o.cls = ACCEPTED;
+          break;
+        }
+        case E_MULTI: {
+          std::istringstream in(text);
+          MultipleDataSetHeader h;
+          if (!h.parse(in)) { o.cls = REJECTED_NULL; break; }
+          o.nfiles = (long)h.get_num_data_sets();
+          std::ostringstream c; c << "n=" << o.nfiles;
+          for (long i = 0; i < o.nfiles; ++i) { o.files.push_back(h.get_filename((size_t)i)); c << ";" << o.files.back(); } // .at(): a throw here is a rejection
+          c << ";stored=" << h._filenames.size();
+          o.canon = c.str();
+          o.cls = ACCEPTED;
+          break;
+        }
+        case E_REG: {
+          std::istringstream in(text);
+          unique_ptr<RegisteredObjectBase> obj(roots()[S.root].read(&in, S.reg_name));
+          if (!obj) { o.cls = REJECTED_NULL; break; }
+          o.canon = obj->parameter_info();
+          o.cls = ACCEPTED;
+          break;
+        }
+        case E_KP: {
+          std::istringstream in(text);
+          AllTypes a(false);
+          if (!a.parse(in)) { o.cls = REJECTED_NULL; break; }
+          o.canon = a.parameter_info();
+          o.cls = ACCEPTED;
+          break;
+        }
+        }
+    }
+  catch (std::runtime_error& e) { o.cls = REJECTED_ERROR; o.what = e.what(); }
+  catch (std::exception& e) { o.cls = REJECTED_FOREIGN_EXCEPTION; o.what = std::string(typeid(e).name()) + ": " + e.what(); }
+  catch (...) { o.cls = REJECTED_FOREIGN_EXCEPTION; o.what = "non-std exception"; }
+}
+
+// ================================================================================================ mutants
+struct LineInfo { refp::Line L; bool cont = false, ends_bs = false, comment = false, blank = false; int logical = 0; size_t start = 0; bool last_of_logical = true; int nphys_of_logical = 1; };
+struct SeedLines
+{
+  std::vector<std::string> phys; bool final_nl = true;
+  std::vector<LineInfo> info;
+  std::vector<std::string> logical;
+};
+static SeedLines analyse_seed(const std::string& text)
+{
+  SeedLines A;
+  A.phys = refp::physical_lines(text, &A.final_nl);
+  A.info.resize(A.phys.size());
+  size_t pos = 0; int lg = 0; bool prev_bs = false;
+  for (size_t i = 0; i < A.phys.size(); ++i)
+    {
+      LineInfo& I = A.info[i];
+      I.L = refp::analyse(A.phys[i]);
+      I.start = pos; pos += A.phys[i].size() + 1;
+      I.cont = prev_bs;
+      std::string t = A.phys[i];
+      if (!t.empty() && t.back() == '\r') t.pop_back();
+      I.ends_bs = !t.empty() && t.back() == '\\';
+      I.blank = refp::trim(t).empty();
+      I.comment = !I.L.kw.empty() && I.L.kw[0] == ';';
+      I.logical = lg;
+      I.last_of_logical = !I.ends_bs;
+      if (!I.ends_bs) ++lg;
+      prev_bs = I.ends_bs;
+    }
+  std::map<int, int> cnt;
+  for (auto& I : A.info) cnt[I.logical]++;
+  for (auto& I : A.info) I.nphys_of_logical = cnt[I.logical];
+  A.logical = refp::logical_lines(text);
+  return A;
+}
+static bool size_determining(const std::string& kw)
+{
+  return kw.find("matrix size") == 0 || kw.find("number of") == 0 || kw.find("total number") == 0 || kw.find("data offset") == 0 || kw.find("ring difference") != std::string::npos
+         || kw.find("tof mashing") == 0 || kw.find("maximum number") == 0 || kw.find("default number") == 0 || kw == "number format" || kw == "tof bin order";
+}
+
+struct Mutant
+{
+  Mut a, b; bool two = false;
+  std::string str() const { return a.str() + (two ? "+" + b.str() : ""); }
+  static Mutant parse(const std::string& s)
+  {
+    Mutant m; auto p = s.find('+');
+    m.a = Mut::parse(s.substr(0, p));
+    if (p != std::string::npos) { m.two = true; m.b = Mut::parse(s.substr(p + 1)); }
+    return m;
+  }
+};
+static bool apply_one(const Seed& S, const SeedLines& A, std::vector<std::string>& lines, bool& nl, const Mut& m)
+{
+  if (m.line < 0 || m.line >= (int)A.info.size()) return false;
+  const LineInfo& I = A.info[m.line];
+  if (m.op == refp::OP_VALUE || m.op == refp::OP_INDEX || m.op == refp::OP_KEYWORD || m.op == refp::OP_ALIAS)
+    if (I.cont || I.comment || I.blank || I.L.kw.empty()) return false;
+  if (m.op == refp::OP_VALUE && I.ends_bs) return false;
+  if (m.op == refp::OP_KEYWORD && m.arg == 6 && I.ends_bs) return false;
+  if (m.op == refp::OP_ALIAS)
+    {
+      if (m.arg < 0 || m.arg >= (int)S.aliases.size() || S.aliases[m.arg].first != I.L.kw) return false;
+      return refp::apply_lines(lines, nl, m, S.aliases[m.arg].second);
+    }
+  return refp::apply_lines(lines, nl, m);
+}
+static bool make_text(const Seed& S, const SeedLines& A, const Mutant& m, std::string& out)
+{
+  if (m.a.op == refp::OP_TRUNC_BYTE)
+    {
+      if (m.two || m.a.arg < 0 || m.a.arg >= (int)S.text.size()) return false;
+      out = S.text.substr(0, m.a.arg);
+      return true;
+    }
+  std::vector<std::string> lines = A.phys; bool nl = A.final_nl;
+  if (m.two)
+    {
+      if (m.a.op != refp::OP_VALUE || m.b.op == refp::OP_TRUNC_BYTE) return false;
+      if (!apply_one(S, A, lines, nl, m.a)) return false;
+      if (m.b.line == m.a.line && m.b.op != refp::OP_DUP && m.b.op != refp::OP_INDEX) return false;
+      if (m.b.op == refp::OP_TRUNC_LINE && m.b.line < m.a.line) return false;
+      // b is analysed on the seed's line (a value replacement keeps keyword, index and line count)
+      if (m.b.op == refp::OP_INDEX && m.b.line == m.a.line)
+        { if (!refp::apply_lines(lines, nl, m.b)) return false; }
+      else if (!apply_one(S, A, lines, nl, m.b)) return false;
+    }
+  else if (!apply_one(S, A, lines, nl, m.a)) return false;
+  out = refp::join_lines(lines, nl);
+  return out != S.text;
+}
+// all deviation-1 mutations that touch physical line i (without byte truncation)
+static void line_mutations(const Seed& S, const SeedLines& A, int i, bool with_keyword_ops, std::vector<Mut>& v)
+{
+  auto add = [&](int op, int arg) { Mut m; m.op = op; m.line = i; m.arg = arg; v.push_back(m); };
+  add(refp::OP_DEL, 0); add(refp::OP_DUP, 0); add(refp::OP_TRUNC_LINE, 0); add(refp::OP_TRUNC_LINE, 1);
+  const LineInfo& I = A.info[i];
+  if (I.cont || I.comment || I.blank || I.L.kw.empty()) return;
+  if (I.L.has_assign && !I.ends_bs)
+    for (int a = 0; a < (int)refp::value_alphabet().size(); ++a) add(refp::OP_VALUE, a);
+  if (I.L.has_assign)
+    {
+      if (I.L.has_index) for (int a = 0; a < refp::N_INDEX_VARIANTS; ++a) add(refp::OP_INDEX, a);
+      else if (I.L.idx_open == std::string::npos) for (int a = 0; a < refp::N_ADDINDEX_VARIANTS; ++a) add(refp::OP_INDEX, a);
+    }
+  if (with_keyword_ops)
+    {
+      for (int a = 0; a < refp::N_KEYWORD_VARIANTS; ++a) add(refp::OP_KEYWORD, a);
+      for (int a = 0; a < (int)S.aliases.size(); ++a) if (S.aliases[a].first == I.L.kw) add(refp::OP_ALIAS, a);
+    }
+}
+static std::string describe(const Seed& S, const SeedLines& A, const Mut& m)
+{
+  if (m.op == refp::OP_TRUNC_BYTE) return "text truncated to its first " + vmc::str(m.arg) + " bytes";
+  std::string d = std::string(refp::op_name(m.op)) + " line " + vmc::str(m.line + 1) + " ('" + short_text(A.phys[m.line], 70) + "')";
+  if (m.op == refp::OP_VALUE) d += " value -> '" + refp::value_name(m.arg) + "'";
+  if (m.op == refp::OP_INDEX) d += " index -> " + refp::index_variant_name(A.info[m.line].L.has_index, m.arg);
+  if (m.op == refp::OP_KEYWORD) d += std::string(" variant ") + refp::keyword_variant_name(m.arg);
+  if (m.op == refp::OP_ALIAS && m.arg < (int)S.aliases.size()) d += " keyword -> alias '" + S.aliases[m.arg].second + "'";
+  if (m.op == refp::OP_TRUNC_LINE) d += m.arg ? " (newline dropped)" : " (newline kept)";
+  return d;
+}
+static std::string mutated_kw(const SeedLines& A, const Mutant& m)
+{
+  const Mut& x = m.a;
+  if (x.op == refp::OP_TRUNC_BYTE || x.op == refp::OP_TRUNC_LINE) return "(truncation)";
+  if (x.line < 0 || x.line >= (int)A.info.size()) return "?";
+  std::string k = A.info[x.line].L.kw;
+  if (A.info[x.line].cont) k = "(continuation line)";
+  if (k.empty()) k = "(blank)";
+  for (char& c : k) if (c == ';' || c == '=') c = '.';
+  return k;
+}
+
+// ================================================================================================ oracles (run in the child)
+static std::map<std::string, refp::RefHeader> g_seed_ref;
+
+static bool clean_number(const std::string& s, double& v)
+{
+  if (s.empty() || s.size() > 12) return false;
+  int dots = 0;
+  for (char c : s) { if (c == '.') ++dots; else if (c < '0' || c > '9') return false; }
+  if (dots > 1 || s == ".") return false;
+  v = atof(s.c_str());
+  return true;
+}
+static std::string ekey(int entry) { return std::string("entry=") + ENTRY_NAMES[entry]; }
+
+// images: sizes / voxel sizes in the object == those of the header; data file long enough for what the header announces
+static void oracle_image(const Seed& S, int entry, const std::string& kase, const std::string& text, const Outcome& o)
+{
+  const refp::RefHeader H = refp::ref_read(text, S.stop_kw);
+  const refp::RefHeader& R = g_seed_ref[S.name];
+  if (!H.clean) { sh_count("oracle_sizes_unchecked_text_not_modelled"); return; }
+  long ms[3]; bool have = true;
+  for (int i = 0; i < 3; ++i) have = H.clean_uint("matrix size[" + std::to_string(i + 1) + "]", ms[i]) && have;
+  if (!have) { sh_count("oracle_sizes_unchecked_no_clean_matrix_size"); return; }
+  sh_count("oracle_sizes_checked");
+  if (o.nx != ms[0] || o.ny != ms[1] || o.nz != ms[2])
+    {
+      sh_violation("clause=size_contradiction;kind=" + S.kind + ";what=object_size_differs_from_matrix_size", kase,
+                   std::string(ENTRY_NAMES[entry]) + ": header says matrix size " + vmc::str(ms[0]) + " x " + vmc::str(ms[1]) + " x " + vmc::str(ms[2]) + " but the accepted image is " + vmc::str(o.nx) + " x " + vmc::str(o.ny) + " x " + vmc::str(o.nz));
+      return;
+    }
+  const double vox[3] = { o.vx, o.vy, o.vz };
+  for (int i = 0; i < 3; ++i)
+    {
+      const std::string slot = "scaling factor (mm/pixel)[" + std::to_string(i + 1) + "]";
+      double v;
+      auto d = H.distinct.find(slot);
+      if (!H.has(slot) || d == H.distinct.end() || d->second != 1 || !clean_number(H.get(slot), v)) continue;
+      sh_count("oracle_voxel_size_checked");
+      if (std::fabs(vox[i] - v) > 1e-5 * std::fabs(v) + 1e-30)
+        {
+          sh_violation("clause=vector_index;" + ekey(entry) + ";what=voxel_size_not_the_value_at_that_index", kase,
+                       "header says scaling factor (mm/pixel)[" + vmc::str(i + 1) + "] := " + H.get(slot) + " but the accepted image has voxel size " + vmc::str(vox[i]) + " on that axis");
+          return;
+        }
+    }
+  // data length
+  long bpp;
+  // 'data offset in bytes' only becomes a keyword through the 'type of data' line: the length is compared only when that line is untouched
+  if (H.get("name of data file") != R.get("name of data file") || H.get("number format") != R.get("number format") || H.get("type of data") != R.get("type of data")
+      || !H.clean_uint("number of bytes per pixel", bpp))
+    { sh_count("oracle_data_length_unchecked"); return; }
+  long need = 0;
+  for (long k = 1; k <= o.ndatasets; ++k)
+    {
+      long off = 0;
+      const std::string slot = "data offset in bytes[" + std::to_string(k) + "]";
+      if (H.has(slot) && !H.clean_uint(slot, off)) { sh_count("oracle_data_length_unchecked"); return; }
+      need = std::max(need, off + ms[0] * ms[1] * ms[2] * bpp);
+    }
+  const long have_len = file_size(S.data_file);
+  sh_count("oracle_data_length_checked");
+  if (have_len < need)
+    sh_violation("clause=size_contradiction;" + ekey(entry) + ";what=data_file_shorter_than_header_announces", kase,
+                 "header announces " + vmc::str(need) + " bytes of data (offset + matrix size x bytes per pixel) but the data file has " + vmc::str(have_len) + " and the image was accepted");
+}
+
+static void oracle_projdata(const Seed& S, int entry, const std::string& kase, const std::string& text, const Outcome& o)
+{
+  const refp::RefHeader H = refp::ref_read(text, S.stop_kw);
+  const refp::RefHeader& R = g_seed_ref[S.name];
+  if (!o.reads_ok) { sh_count("projdata_accepted_then_error_on_reading_elements"); sh_observe("projection data header accepted, error raised later when the elements are read: " + short_text(o.read_err, 200)); }
+  if (!H.clean) { sh_count("oracle_sizes_unchecked_text_not_modelled"); return; }
+  const bool spect = S.kind == "spect";
+  long tang = 0, views = 0, nseg = 1, ntof = 1; std::vector<long> nax;
+  bool have = true;
+  if (spect)
+    {
+      long ax = 0;
+      have = H.clean_uint("matrix size[1]", tang) && H.clean_uint("matrix size[2]", ax) && H.clean_uint("number of projections", views);
+      nax.push_back(ax);
+    }
+  else
+    {
+      for (int i = 1; i <= 5; ++i)
+        {
+          const std::string slot = "matrix axis label[" + std::to_string(i) + "]";
+          if (H.get(slot) != R.get(slot)) have = false;
+        }
+      const bool tof = R.has("matrix size[5]");
+      auto dd = H.distinct.find("matrix size[2]");
+      have = have && H.clean_uint("matrix size[1]", tang) && H.clean_uint("matrix size[3]", views) && H.clean_uint("matrix size[4]", nseg) && dd != H.distinct.end() && dd->second == 1
+             && refp::clean_int_list(H.get("matrix size[2]"), nax) && (!tof || H.clean_uint("matrix size[5]", ntof)) && (tof || !H.has("matrix size[5]"));
+    }
+  if (!have) { sh_count("oracle_sizes_unchecked_no_clean_matrix_size"); return; }
+  sh_count("oracle_sizes_checked");
+  std::vector<long> a = nax, b = o.nax;
+  std::sort(a.begin(), a.end()); std::sort(b.begin(), b.end());
+  if (o.ntang != tang || o.nviews != views || o.nseg != nseg || o.ntof != ntof || a != b)
+    {
+      std::string sa, sb; for (long x : nax) sa += vmc::str(x) + ","; for (long x : o.nax) sb += vmc::str(x) + ",";
+      sh_violation("clause=size_contradiction;" + ekey(entry) + ";what=object_size_differs_from_matrix_size", kase,
+                   "header says tangential " + vmc::str(tang) + ", views " + vmc::str(views) + ", segments " + vmc::str(nseg) + ", TOF " + vmc::str(ntof) + ", axial {" + sa + "} but the accepted projection data have tangential "
+                       + vmc::str(o.ntang) + ", views " + vmc::str(o.nviews) + ", segments " + vmc::str(o.nseg) + ", TOF " + vmc::str(o.ntof) + ", axial {" + sb + "}");
+      return;
+    }
+  long bpp, off = 0;
+  const std::string offslot = spect ? "data offset in bytes" : "data offset in bytes[1]";
+  if (H.get("name of data file") != R.get("name of data file") || H.get("number format") != R.get("number format") || H.get("type of data") != R.get("type of data")
+      || !H.clean_uint("number of bytes per pixel", bpp) || (H.has(offslot) && !H.clean_uint(offslot, off)))
+    { sh_count("oracle_data_length_unchecked"); return; }
+  long sumax = 0; for (long x : nax) sumax += x;
+  const long need = off + tang * views * sumax * ntof * bpp, have_len = file_size(S.data_file);
+  sh_count("oracle_data_length_checked");
+  if (have_len < need && o.reads_ok)
+    sh_violation("clause=size_contradiction;" + ekey(entry) + ";what=data_file_shorter_than_header_announces", kase,
+                 "header announces " + vmc::str(need) + " bytes of data but the data file has " + vmc::str(have_len) + "; the projection data were accepted and every segment was read without an error");
+}
+
+static void oracle_multi(const Seed& S, int entry, const std::string& kase, const std::string& text, const Outcome& o)
+{
+  const refp::RefHeader H = refp::ref_read(text, S.stop_kw);
+  if (!H.clean) { sh_count("oracle_sizes_unchecked_text_not_modelled"); return; }
+  long n;
+  if (!H.clean_uint("total number of data sets", n)) { sh_count("oracle_sizes_unchecked_no_clean_matrix_size"); return; }
+  sh_count("oracle_sizes_checked");
+  if (o.nfiles != n) { sh_violation("clause=size_contradiction;" + ekey(entry) + ";what=number_of_data_sets", kase, "header says " + vmc::str(n) + " data sets, accepted object has " + vmc::str(o.nfiles)); return; }
+  for (long i = 1; i <= n; ++i)
+    {
+      const std::string slot = "data set[" + std::to_string(i) + "]";
+      auto d = H.distinct.find(slot);
+      if (!H.has(slot) || d == H.distinct.end() || d->second != 1) continue;
+      sh_count("oracle_vector_index_checked");
+      if (o.files[(size_t)i - 1] != H.get(slot))
+        { sh_violation("clause=vector_index;" + ekey(entry) + ";what=data_set_not_stored_at_its_index", kase, "'" + slot + " := " + H.get(slot) + "' but element " + vmc::str(i) + " of the accepted object is '" + o.files[(size_t)i - 1] + "'"); return; }
+    }
+}
+
+// registered objects / KeyParser: the accepted object prints a text that parses back to an object printing the same text
+static void oracle_fixpoint(const Seed& S, int entry, const std::string& kase, const Outcome& o)
+{
+  Outcome o2;
+  run_entry(S, entry, o.canon, o2);
+  sh_count("oracle_fixpoint_checked");
+  if (o2.cls != ACCEPTED)
+    sh_violation("clause=inconsistent_object;" + ekey(entry) + ";what=own_parameter_text_rejected", kase,
+                 "class " + (entry == E_REG ? S.reg_name : std::string("AllTypes")) + ": the text was accepted, but the parameter_info() text of the resulting object is rejected when parsed: " + short_text(o2.what, 200));
+  else if (no_blank_lines(o2.canon) != no_blank_lines(o.canon))
+    sh_violation("clause=inconsistent_object;" + ekey(entry) + ";what=own_parameter_text_parses_to_different_object", kase,
+                 "class " + (entry == E_REG ? S.reg_name : std::string("AllTypes")) + ": the text was accepted, but parsing the parameter_info() text of the resulting object gives an object that prints differently: " + first_diff(o.canon, o2.canon));
+}
+
+// slot model for the AllTypes parser: every logical line of parameter_info() is one slot (keyword[index]); the expected
+// text of a slot is the seed's line, the default object's line, or unchecked.
+static std::string slot_of(const refp::Line& L)
+{
+  if (L.kw.empty()) return std::string();
+  return L.kw + (L.has_index ? "[" + refp::trim(L.index_txt) + "]" : "");
+}
+static void oracle_kp_slots(const Seed& S, const SeedLines& A, int entry, const Mutant& m, const std::string& kase, const Outcome& o)
+{
+  if (m.two) return;
+  const std::vector<std::string>& Ls = A.logical;
+  const std::vector<std::string> Ld = refp::logical_lines(S.default_text), Lm = refp::logical_lines(o.canon);
+  if (Ls.size() != Ld.size()) { sh_count("oracle_slots_unavailable"); return; }
+  enum { SEED = 0, DEFAULT, UNCHECKED };
+  std::vector<int> st(Ls.size(), SEED);
+  const Mut& x = m.a;
+  std::string moved_slot, moved_value; bool moved = false;
+  auto set_after = [&](int q, int v) { for (size_t k = (size_t)std::max(q, 0); k < st.size(); ++k) st[k] = v; };
+  if (x.op == refp::OP_TRUNC_BYTE)
+    {
+      int p = -1;
+      for (size_t i = 0; i < A.info.size(); ++i) if ((size_t)x.arg >= A.info[i].start && (size_t)x.arg <= A.info[i].start + A.phys[i].size()) p = (int)i;
+      if (p < 0) return;
+      const LineInfo& I = A.info[p];
+      set_after(I.logical + 1, DEFAULT);
+      if ((size_t)x.arg == I.start && !I.cont) st[I.logical] = DEFAULT;
+      else if ((size_t)x.arg == I.start + A.phys[p].size() && I.last_of_logical) st[I.logical] = SEED;
+      else st[I.logical] = UNCHECKED;
+      if (I.logical == 0 && st[0] != SEED) return; // start keyword damaged: nothing is specified
+    }
+  else
+    {
+      const LineInfo& I = A.info[x.line];
+      const int q = I.logical;
+      switch (x.op)
+        {
+        case refp::OP_DEL: if (q == 0) return; st[q] = I.nphys_of_logical == 1 ? DEFAULT : UNCHECKED; break;
+        case refp::OP_DUP: if (I.nphys_of_logical != 1) st[q] = UNCHECKED; break;
+        case refp::OP_TRUNC_LINE: set_after(q + 1, DEFAULT); if (!I.last_of_logical) st[q] = UNCHECKED; break;
+        case refp::OP_VALUE:
+          st[q] = UNCHECKED;
+          if (!refp::value_alphabet()[x.arg].empty() && refp::value_alphabet()[x.arg].back() == '\\' && q + 1 < (int)st.size()) st[q + 1] = UNCHECKED; // continuation: the next line is joined
+          break;
+        case refp::OP_INDEX: {
+          st[q] = I.L.has_index ? DEFAULT : UNCHECKED;
+          if (I.L.has_index && (x.arg == 1 || x.arg == 2))
+            {
+              const long j = atol(I.L.index_txt.c_str()) + (x.arg == 1 ? 1 : -1);
+              moved = true; moved_slot = I.L.kw + "[" + std::to_string(j) + "]"; moved_value = I.L.value;
+              // moved forward onto a slot that a LATER line of the text assigns again: that line wins, nothing to observe
+              if (x.arg == 1)
+                for (size_t k = (size_t)q + 1; k < Ls.size(); ++k) if (slot_of(refp::analyse(Ls[k])) == moved_slot) moved = false;
+            }
+          else if (I.L.has_index && (x.arg == 0 || x.arg == 3 || x.arg == 4))
+            { moved = true; moved_slot = I.L.kw + (x.arg == 0 ? "[0]" : x.arg == 3 ? "[9999]" : "[-1]"); moved_value = I.L.value; }
+          break;
+        }
+        default: return; // keyword respelling / alias: compared with the unmutated object elsewhere
+        }
+    }
+  std::map<std::string, std::string> got;
+  for (auto& l : Lm) { refp::Line L = refp::analyse(l); if (!L.kw.empty() && L.has_assign) got[slot_of(L)] = L.value; }
+  sh_count("oracle_slots_checked");
+  for (size_t k = 0; k < Ls.size(); ++k)
+    {
+      refp::Line L = refp::analyse(Ls[k]);
+      if (L.kw.empty() || !L.has_assign || st[k] == UNCHECKED) continue;
+      const std::string slot = slot_of(L);
+      if (moved && slot == moved_slot) continue;
+      const std::string want = st[k] == SEED ? L.value : refp::analyse(Ld[k]).value;
+      if (!got.count(slot) || got[slot] != want)
+        {
+          sh_violation(std::string("clause=not_parsed_faithfully;") + ekey(entry) + ";op=" + refp::op_name(x.op), kase,
+                       "after the mutation the accepted object should print '" + slot + " := " + want + "' (" + (st[k] == SEED ? "line untouched by the mutation" : "line removed: default value") + ") but it prints '"
+                           + (got.count(slot) ? got[slot] : std::string("<slot missing>")) + "'");
+          return;
+        }
+    }
+  if (moved)
+    {
+      sh_count("oracle_vector_index_checked");
+      if (!got.count(moved_slot) || got[moved_slot] != moved_value)
+        sh_violation(std::string("clause=vector_index;") + ekey(entry) + ";what=value_not_stored_at_the_index_given", kase,
+                     "the text assigns '" + moved_slot + " := " + moved_value + "' and was accepted, but the object prints '" + (got.count(moved_slot) ? moved_slot + " := " + got[moved_slot] : std::string("no such element")) + "'");
+    }
+}
+
+// everything that is checked for one executed mutant
+static void judge(const Seed& S, const SeedLines& A, int entry, const Mutant& m, const std::string& text, const std::string& kase, const Outcome& o)
+{
+  static const char* CLS[] = { "accepted", "rejected_null_or_false", "rejected_error", "rejected_foreign_exception" };
+  sh_count(std::string("outcome_") + CLS[o.cls]);
+  if (o.cls == REJECTED_FOREIGN_EXCEPTION) sh_observe(std::string("rejected through an exception that is not stir::error(): ") + short_text(o.what, 120) + " [" + ENTRY_NAMES[entry] + "]");
+  if (SH->alloc_how)
+    {
+      const std::string site = SH->alloc_site;
+      sh_violation(std::string("clause=unbounded_allocation;how=") + (SH->alloc_how == 1 ? "single_request" : "live_bytes") + ";site=" + site + (site == "unknown" ? ";key=" + mutated_kw(A, m) : std::string()), kase,
+                   std::string(ENTRY_NAMES[entry]) + ": a " + vmc::str(text.size()) + "-byte input made the library request " + vmc::str((unsigned long long)SH->alloc_req) + " bytes (" + (SH->alloc_how == 1 ? "one allocation" : "outstanding at once")
+                       + "; cap " + vmc::str(SH->alloc_how == 1 ? (unsigned long long)ALLOC_CAP : (unsigned long long)LIVE_CAP) + "); outcome after the refusal: " + CLS[o.cls] + " " + short_text(o.what, 100));
+      return;
+    }
+  const bool equivalence = !m.two && (m.a.op == refp::OP_KEYWORD || m.a.op == refp::OP_ALIAS);
+  const std::string& base = S.base_canon.at(entry);
+  if (equivalence)
+    {
+      sh_count("oracle_keyword_equivalence_checked");
+      const std::string variant = m.a.op == refp::OP_ALIAS ? "alias" : refp::keyword_variant_name(m.a.arg);
+      if (o.cls != ACCEPTED)
+        { sh_violation("clause=keyword_equivalence;variant=" + variant + ";effect=rejected;kind=" + S.kind, kase, std::string(ENTRY_NAMES[entry]) + ": respelling the keyword '" + mutated_kw(A, m) + "' in a way that matching must ignore made the text rejected: " + short_text(o.what, 200)); return; }
+      if (o.canon != base)
+        { sh_violation("clause=keyword_equivalence;variant=" + variant + ";effect=different_object;kind=" + S.kind, kase, std::string(ENTRY_NAMES[entry]) + ": respelling the keyword '" + mutated_kw(A, m) + "' in a way that matching must ignore changed the object: " + first_diff(base, o.canon)); return; }
+    }
+  if (o.cls != ACCEPTED) return;
+  if (o.is_image && (S.kind == "img" || S.kind == "dyn" || S.kind == "par") && entry != E_MULTI) oracle_image(S, entry, kase, text, o);
+  if (o.is_projdata) oracle_projdata(S, entry, kase, text, o);
+  if (entry == E_MULTI) oracle_multi(S, entry, kase, text, o);
+  if (entry == E_REG || entry == E_KP) oracle_fixpoint(S, entry, kase, o);
+  if (entry == E_KP) oracle_kp_slots(S, A, entry, m, kase, o);
+}
+
+// ================================================================================================ running mutants in forked children
+static int g_timeout = 10;
+static std::string g_errfile;
+static std::string case_str(const Seed& S, int entry, const Mutant& m) { return "seed=" + S.name + ";entry=" + ENTRY_NAMES[entry] + ";m=" + m.str(); }
+static std::string describe(const Seed& S, const SeedLines& A, const Mutant& m) { return describe(S, A, m.a) + (m.two ? " AND " + describe(S, A, m.b) : ""); }
+
+static void child_redirect()
+{
+  int fd = ::open(g_errfile.c_str(), O_CREAT | O_WRONLY | O_TRUNC, 0644);
+  if (fd >= 0) { dup2(fd, 2); dup2(fd, 1); close(fd); }
+  int nul = ::open("/dev/null", O_RDONLY);
+  if (nul >= 0) { dup2(nul, 0); close(nul); }
+}
+
+// executes muts[SH->next ..] in a child; returns when all are done; crashes become violations
+static void run_mutants(vmc::Ctx& ctx, const Seed& S, const SeedLines& A, int entry, const std::vector<Mutant>& muts)
+{
+  const long long n = (long long)muts.size();
+  SH->next = 0;
+  int crashes = 0;
+  bool alone = false; int alone_timeout = 60;
+  while (SH->next < n)
+    {
+      fflush(stdout); fflush(stderr);
+      const long long from = SH->next, to = alone ? from + 1 : n;
+      pid_t pid = fork();
+      if (pid < 0) { perror("fork"); exit(2); }
+      if (pid == 0)
+        {
+          child_redirect();
+          for (long long k = from; k < to; ++k)
+            {
+              SH->cur = k;
+              const Mutant& m = muts[(size_t)k];
+              std::string text;
+              if (!make_text(S, A, m, text)) { SH->next = k + 1; continue; }
+              const std::string kase = case_str(S, entry, m);
+              g_desc = describe(S, A, m);
+              alarm(alone ? alone_timeout : g_timeout);
+              {
+                CapScope cap;
+                Outcome o;
+                SH->stage = 1;
+                run_entry(S, entry, text, o);
+                SH->stage = 2;
+                judge(S, A, entry, m, text, kase, o);
+                SH->stage = 0;
+              }
+              alarm(0);
+              sh_count("evaluations");
+              SH->next = k + 1;
+            }
+          _exit(0);
+        }
+      int status = 0;
+      while (waitpid(pid, &status, 0) < 0 && errno == EINTR) {}
+      if (SH->next >= to && WIFEXITED(status) && WEXITSTATUS(status) == 0) { alone = false; continue; }
+      // the child died while executing mutant SH->cur
+      const long long k = SH->cur;
+      const Mutant& m = muts[(size_t)k];
+      const std::string kase = case_str(S, entry, m);
+      Crash c = classify_crash(g_errfile, status);
+      if (c.kind == "hang" && !alone) { alone = true; SH->next = k; ctx.count("timeouts_rerun_alone"); continue; } // re-run alone with a long timeout before calling it a hang
+      alone = false;
+      ++crashes;
+      ctx.count("evaluations");
+      ctx.count("crashed_executions");
+      const std::string stage = SH->stage == 2 ? ";stage=while_reading_the_accepted_object" : "";
+      if (c.kind == "hang")
+        ctx.violation("clause=hang;" + ekey(entry) + ";op=" + refp::op_name(m.a.op), kase, "keyword '" + mutated_kw(A, m) + "': no result after " + vmc::str(alone_timeout) + " s when run alone | mutation: " + describe(S, A, m));
+      else if (c.kind.find("asan-allocation-size-too-big") == 0 || c.kind.find("asan-out-of-memory") == 0)
+        ctx.violation("clause=unbounded_allocation;how=malloc;site=" + c.site, kase, std::string(ENTRY_NAMES[entry]) + ": " + c.detail + " | mutation: " + describe(S, A, m));
+      else
+        ctx.violation("crash;kind=" + c.kind + ";site=" + c.site + stage, kase, std::string(ENTRY_NAMES[entry]) + ": " + c.detail + " | mutation: " + describe(S, A, m));
+      SH->stage = 0;
+      SH->next = k + 1;
+      if (crashes > 4000) { ctx.count("units_abandoned_after_4000_crashes"); ctx.exhaustive = false; break; }
+    }
+  sh_drain(ctx);
+}
+
+// ================================================================================================ part R: round trip of every registered class
+struct RoundTrip { int status = -1; std::string start_kw, t1, t2, msg; };
+// status: 0 ok; 1 start keyword not discovered; 2 default object rejected (post_processing / null); 3 default object: exception;
+//         4 own text rejected; 5 own text parses to an object that prints differently; 6 crashed / hung
+static const char* RT_NAMES[] = { "round_trip_equal", "skipped_start_keyword_not_discovered", "skipped_default_object_rejected", "skipped_default_object_exception", "own_text_rejected",
+                                  "own_text_differs", "crashed" };
+static std::map<std::string, RoundTrip> g_rt_cache;
+
+static RoundTrip round_trip(int root, const std::string& name, Crash* crash = nullptr)
+{
+  const std::string id = vmc::str(root) + "/" + name;
+  if (!crash && g_rt_cache.count(id)) return g_rt_cache[id];
+  RoundTrip r;
+  SH->status = 6; SH->text_a[0] = SH->text_b[0] = SH->text_c[0] = 0;
+  fflush(stdout); fflush(stderr);
+  pid_t pid = fork();
+  if (pid < 0) { perror("fork"); exit(2); }
+  if (pid == 0)
+    {
+      child_redirect();
+      alarm(30);
+      CapScope cap;
+      const Root& R = roots()[root];
+      auto put = [](char* dst, size_t n, const std::string& s) { snprintf(dst, n, "%s", s.c_str()); };
+      try
+        {
+          clear_msgs();
+          { std::istringstream empty(""); unique_ptr<RegisteredObjectBase> o(R.read(&empty, name)); }
+          const std::string w = g_warn.buf;
+          const std::string tag = "required first keyword \"";
+          size_t p = w.find(tag);
+          if (p == std::string::npos) { SH->status = 1; put(SH->text_c, sizeof SH->text_c, short_text(w, 300)); _exit(0); }
+          size_t q = w.find("\" not found", p);
+          const std::string start = w.substr(p + tag.size(), q - p - tag.size());
+          put(SH->text_c, sizeof SH->text_c, start);
+          std::istringstream in0(start + " :=\n");
+          unique_ptr<RegisteredObjectBase> o1;
+          try { o1.reset(R.read(&in0, name)); }
+          catch (std::exception& e) { SH->status = 3; put(SH->text_a, sizeof SH->text_a, e.what()); _exit(0); }
+          if (!o1) { SH->status = 2; put(SH->text_a, sizeof SH->text_a, short_text(g_warn.buf, 400)); _exit(0); }
+          const std::string t1 = o1->parameter_info();
+          put(SH->text_a, sizeof SH->text_a, t1);
+          if (t1.size() >= sizeof SH->text_a) { SH->status = 3; put(SH->text_a, sizeof SH->text_a, "parameter text longer than 64 kB"); _exit(0); }
+          clear_msgs();
+          std::istringstream in1(t1);
+          unique_ptr<RegisteredObjectBase> o2;
+          try { o2.reset(R.read(&in1, name)); }
+          catch (std::exception& e) { SH->status = 4; put(SH->text_b, sizeof SH->text_b, e.what()); _exit(0); }
+          if (!o2) { SH->status = 4; put(SH->text_b, sizeof SH->text_b, short_text(g_warn.buf, 400)); _exit(0); }
+          const std::string t2 = o2->parameter_info();
+          put(SH->text_b, sizeof SH->text_b, t2);
+          SH->status = no_blank_lines(t1) == no_blank_lines(t2) ? 0 : 5;
+          if (SH->status == 0 && t1 != t2) snprintf(SH->text_c, sizeof SH->text_c, "BLANKDIFF");
+        }
+      catch (std::exception& e) { SH->status = 3; put(SH->text_a, sizeof SH->text_a, e.what()); }
+      catch (...) { SH->status = 3; put(SH->text_a, sizeof SH->text_a, "non-std exception"); }
+      _exit(0);
+    }
+  int status = 0;
+  while (waitpid(pid, &status, 0) < 0 && errno == EINTR) {}
+  r.status = SH->status;
+  if (!(WIFEXITED(status) && WEXITSTATUS(status) == 0)) { r.status = 6; Crash c = classify_crash(g_errfile, status); r.msg = c.detail; if (crash) *crash = c; }
+  r.start_kw = SH->text_c; r.t1 = SH->text_a; r.t2 = SH->text_b;
+  g_rt_cache[id] = r;
+  return r;
+}
+static bool build_reg_seed(int root, const std::string& name, Seed& S)
+{
+  RoundTrip r = round_trip(root, name);
+  if (r.status != 0) return false;
+  S = Seed();
+  S.name = "reg/" + vmc::str(root) + "/" + name;
+  S.kind = "reg"; S.text = r.t1; S.root = root; S.reg_name = name; S.entries = { E_REG };
+  return true;
+}
+
+// the unmutated text must be accepted by every entry point of the seed; its canonical object description is the baseline
+static bool baseline(vmc::Ctx& ctx, Seed& S)
+{
+  bool all = true;
+  for (int e : S.entries)
+    {
+      SH->status = -1; SH->text_a[0] = 0; SH->text_b[0] = 0;
+      fflush(stdout); fflush(stderr);
+      pid_t pid = fork();
+      if (pid == 0)
+        {
+          child_redirect();
+          alarm(60);
+          Outcome o;
+          run_entry(S, e, S.text, o);
+          SH->status = o.cls;
+          snprintf(SH->text_a, sizeof SH->text_a, "%s", o.canon.c_str());
+          snprintf(SH->text_b, sizeof SH->text_b, "%s", (o.what + " " + short_text(g_warn.buf, 300)).c_str());
+          _exit(0);
+        }
+      int status = 0;
+      while (waitpid(pid, &status, 0) < 0 && errno == EINTR) {}
+      if (SH->status != ACCEPTED || strlen(SH->text_a) + 1 >= sizeof SH->text_a)
+        {
+          ctx.count("seed_entry_pairs_dropped_unmutated_text_not_accepted");
+          // a text written by the library itself must be readable by the library (on the unchanged tree every seed is)
+          ctx.violation(std::string("clause=own_text_not_accepted;kind=") + S.kind + ";" + ekey(e), "seed=" + S.name + ";entry=" + ENTRY_NAMES[e] + ";m=" + Mutant().str(),
+                        "the unmutated text written by the library is not accepted (" + std::string(SH->text_b).substr(0, 300) + ")");
+          ctx.observe("seed '" + S.name + "' written by the library is not accepted unmutated by " + ENTRY_NAMES[e] + ": " + SH->text_b);
+          all = false;
+          continue;
+        }
+      S.base_canon[e] = SH->text_a;
+    }
+  std::vector<int> keep;
+  for (int e : S.entries) if (S.base_canon.count(e)) keep.push_back(e);
+  S.entries = keep;
+  g_seed_ref[S.name] = refp::ref_read(S.text, S.stop_kw);
+  return all;
+}
+
+// ================================================================================================ enumeration
+// second mutation of a pair: delete, truncate after the line, value from the reduced alphabet, index variants;
+// for projection-data seeds only on size-determining lines (one mutant of those costs ~50 ms: Scanner::get_scanner_from_name)
+static void pair_second_mutations(const Seed& S, const SeedLines& A, int j, std::vector<Mut>& v)
+{
+  auto add = [&](int op, int arg) { Mut m; m.op = op; m.line = j; m.arg = arg; v.push_back(m); };
+  const LineInfo& I = A.info[j];
+  const bool pd = S.kind == "pdfs" || S.kind == "spect";
+  if (pd && !size_determining(I.L.kw)) return;
+  add(refp::OP_DEL, 0); add(refp::OP_TRUNC_LINE, 0);
+  if (I.cont || I.comment || I.blank || I.L.kw.empty() || !I.L.has_assign) return;
+  if (!I.ends_bs) for (int a : refp::pair_value_subset()) add(refp::OP_VALUE, a);
+  if (!pd)
+    {
+      if (I.L.has_index) for (int a = 0; a < refp::N_INDEX_VARIANTS; ++a) add(refp::OP_INDEX, a);
+      else if (I.L.idx_open == std::string::npos) for (int a = 0; a < refp::N_ADDINDEX_VARIANTS; ++a) add(refp::OP_INDEX, a);
+    }
+}
+static bool pair_first_line(const Seed& S, const std::string& kw)
+{
+  if (S.kind == "pdfs" || S.kind == "spect")
+    return kw.find("matrix size") == 0 || kw == "number of dimensions" || kw == "number of bytes per pixel" || kw == "number of projections" || kw.find("ring difference") != std::string::npos;
+  return size_determining(kw);
+}
+static void collect(const Seed& S, const SeedLines& A, int c, int NC, bool dev1, bool bytes, bool pairs, std::vector<Mutant>& out)
+{
+  const int nl = (int)A.phys.size();
+  if (dev1)
+    for (int i = c; i < nl; i += NC)
+      {
+        std::vector<Mut> v;
+        line_mutations(S, A, i, true, v);
+        for (auto& m : v) { Mutant M; M.a = m; out.push_back(M); }
+      }
+  if (bytes)
+    for (int k = c; k < (int)S.text.size(); k += NC) { Mutant M; M.a.op = refp::OP_TRUNC_BYTE; M.a.line = 0; M.a.arg = k; out.push_back(M); }
+  if (pairs)
+    for (int i = c; i < nl; i += NC)
+      {
+        const LineInfo& I = A.info[i];
+        if (I.cont || I.comment || I.blank || !I.L.has_assign || I.ends_bs || !pair_first_line(S, I.L.kw)) continue;
+        for (int a : refp::pair_value_subset())
+          for (int j = 0; j < nl; ++j)
+            {
+              std::vector<Mut> v;
+              pair_second_mutations(S, A, j, v);
+              for (auto& m : v) { Mutant M; M.two = true; M.a.op = refp::OP_VALUE; M.a.line = i; M.a.arg = a; M.b = m; out.push_back(M); }
+            }
+      }
+}
+
+static void exec_unit(vmc::Ctx& ctx, const Seed& S, const SeedLines& A, int entry, const std::vector<Mutant>& all, const std::string& label)
+{
+  ctx.current(ekey(entry), "unit " + label);
+  std::vector<Mutant> muts;
+  std::unordered_set<uint64_t> seen;
+  std::string text;
+  for (auto& m : all)
+    {
+      if (!make_text(S, A, m, text)) { ctx.count("mutations_not_applicable_or_identity"); continue; }
+      const uint64_t h = vmc::fnv(text, vmc::fnv(std::string(ENTRY_NAMES[entry]) + "|" + S.name));
+      if (!seen.insert(h).second) { ctx.count("mutants_with_identical_text_skipped"); continue; }
+      ctx.nontrivial(h);
+      ctx.count(std::string("mutants_") + (m.two ? "deviation2" : refp::op_name(m.a.op)));
+      muts.push_back(m);
+    }
+  if (!muts.empty() && ctx.samples.size() < 4)
+    ctx.sample("seed " + S.name + " (" + vmc::str(S.text.size()) + " bytes, " + vmc::str(A.phys.size()) + " lines) via " + ENTRY_NAMES[entry] + ": e.g. " + describe(S, A, muts[muts.size() / 2]));
+  run_mutants(ctx, S, A, entry, muts);
+  ctx.count("work_units");
+}
+
+int main(int argc, char** argv)
+{
+  vmc::Ctx ctx(argc, argv, "C17");
+  small::quiet();
+  silence_stir();
+  if (const char* r = getenv("VERIF_REPO")) g_repo = r;
+  SH = (Shared*)mmap(nullptr, sizeof(Shared), PROT_READ | PROT_WRITE, MAP_SHARED | MAP_ANONYMOUS, -1, 0);
+  if (SH == MAP_FAILED) { perror("mmap"); return 2; }
+  memset(SH, 0, sizeof *SH);
+  {
+    char buf[4096];
+    std::string t = ctx.tmpdir;
+    if (!t.empty() && t[0] != '/' && getcwd(buf, sizeof buf)) t = std::string(buf) + "/" + t;
+    g_tmp = t + "/c17_s" + vmc::str(ctx.shard) + (ctx.replaying() ? "_replay" + vmc::str((int)getpid()) : "");
+    ::mkdir(g_tmp.c_str(), 0755);
+    g_mutant_file = g_tmp + "/mutant.hdr";
+    g_errfile = g_tmp + "/child.err";
+  }
+  warm_up_symbolizer();
+  const bool th = ctx.thorough();
+  ctx.rule = "one evaluation = one mutant text (seed written by the library x grammar-aware mutation) given to one public entry point in a forked child under ASan with an allocation cap and an alarm; "
+             "mutations per physical line: delete, duplicate, truncate after it (with/without newline), value := each of 24 alphabet members, index variants, 7 keyword respellings that matching must ignore, "
+             "every alias; truncation at every byte; thorough: pairs (value replacement on a size-determining key, any line mutation); distinct/non-trivial = distinct (entry point, mutant text) different from the seed; "
+             "part R: every registered name of 22 registries: default object -> parameter_info -> parse -> parameter_info";
+  ctx.assume("outcome classes: accepted | rejected (null / false / stir::error() / any other exception); a crash, sanitizer report, refused allocation (single request > 64 MB or > 1 GB outstanding from an input <= 64 kB) or no result "
+             "within 10 s (re-run alone with 60 s) is a violation");
+  ctx.assume("accepted => sizes of the object == 'matrix size' keys of the mutant text as read by the harness' own reference reader (only when those keys are clean unsigned integers assigned consistently, no ${...}, "
+             "labels unchanged) and data file length >= offset + product of sizes x bytes per pixel (only when data file name, number format and type of data are untouched: the offset keys exist only after the type-of-data line); otherwise counted as unchecked");
+  ctx.assume("keyword respellings (case, extra blanks where a blank is, leading !, blank<->underscore/tab) and aliases must give an object identical to that of the unmutated text (canonical string: geometry, all values, exam info / parameter_info)");
+  ctx.assume("KeyParser slot model (AllTypes seed): a removed line leaves the default, an untouched line its seed value, key[j] := v is stored at element j; the mutated line's own slot is not checked for value replacements");
+  ctx.assume("parameter texts are compared modulo blank lines");
+  ctx.assume("registered classes: accepted => parameter_info() of the object parses back to an object printing the same text; part R: a class is skipped (counted, reason recorded) when the text '<start keyword> :=' is rejected, i.e. it cannot be default-constructed without external data");
+  ctx.assume("an error raised only when the elements of accepted projection data are read (lazy reading) counts as reported, not as silent acceptance");
+  g_timeout = 10;
+
+  if (!ctx.extra_args.empty() && ctx.extra_args[0] == "--dump")
+    {
+      // debugging aid: print a seed text, or the texts of a registered class' round trip ("--dump rt <root> <name>")
+      if (ctx.extra_args.size() >= 4 && ctx.extra_args[1] == "rt")
+        {
+          RoundTrip r = round_trip(atoi(ctx.extra_args[2].c_str()), ctx.extra_args[3]);
+          printf("status %d (%s)\nstart '%s'\n---- T1\n%s\n---- T2\n%s\n---- %s\n", r.status, RT_NAMES[r.status], r.start_kw.c_str(), r.t1.c_str(), r.t2.c_str(), r.msg.c_str());
+        }
+      else
+        for (size_t i = 1; i < ctx.extra_args.size(); ++i)
+          { Seed S; if (build_seed(ctx.extra_args[i], S)) printf("==== %s\n%s\n", S.name.c_str(), S.text.c_str()); }
+      return 0;
+    }
+  if (ctx.replaying())
+    {
+      auto kv = vmc::kv(ctx.replay);
+      Seed S;
+      const std::string sn = kv["seed"];
+      bool ok;
+      if (sn.rfind("reg/", 0) == 0) { size_t p = sn.find('/', 4); ok = build_reg_seed(atoi(sn.substr(4, p - 4).c_str()), sn.substr(p + 1), S); }
+      else if (sn.rfind("roundtrip/", 0) == 0)
+        {
+          size_t p = sn.find('/', 10);
+          const int root = atoi(sn.substr(10, p - 10).c_str()); const std::string name = sn.substr(p + 1);
+          Crash c; RoundTrip r = round_trip(root, name, &c);
+          const std::string rk = ";registry=" + roots()[root].label + ";name=" + name;
+          if (r.status == 4) ctx.violation("clause=roundtrip;what=own_text_rejected" + rk, ctx.replay, r.t2);
+          if (r.status == 5) ctx.violation("clause=roundtrip;what=own_text_differs" + rk, ctx.replay, first_diff(r.t1, r.t2));
+          if (r.status == 6) ctx.violation("crash;kind=" + c.kind + ";site=" + c.site, ctx.replay, r.msg);
+          return ctx.finish();
+        }
+      else ok = build_seed(sn, S);
+      if (!ok) { fprintf(stderr, "cannot rebuild seed %s\n", sn.c_str()); return 2; }
+      const int entry = entry_from_name(kv["entry"]);
+      S.entries = { entry };
+      baseline(ctx, S);
+      if (S.entries.empty()) { fprintf(stderr, "seed not accepted unmutated\n"); return 2; }
+      SeedLines A = analyse_seed(S.text);
+      std::vector<Mutant> one = { Mutant::parse(kv["m"]) };
+      run_mutants(ctx, S, A, entry, one);
+      return ctx.finish();
+    }
+
+  uint64_t unit = 0;
+  bool stop = false;
+  // ---------------------------------------------------------------- part R
+  std::vector<std::pair<int, std::string>> reg_ok_candidates;
+  for (int r = 0; r < (int)roots().size() && !stop; ++r)
+    for (const std::string& name : registered_names(roots()[r]))
+      {
+        reg_ok_candidates.push_back({ r, name });
+        if (!ctx.mine(unit++)) continue;
+        if (ctx.expired()) { stop = true; break; }
+        ctx.current("entry=roundtrip", "seed=roundtrip/" + vmc::str(r) + "/" + name);
+        Crash c;
+        RoundTrip rt = round_trip(r, name, &c);
+        ctx.count("evaluations");
+        ctx.count("registered_classes");
+        ctx.count(std::string("roundtrip_") + RT_NAMES[rt.status]);
+        const std::string kase = "seed=roundtrip/" + vmc::str(r) + "/" + name, rk = ";registry=" + roots()[r].label + ";name=" + name;
+        if (rt.status == 0 && rt.start_kw == "BLANKDIFF") { ctx.count("roundtrip_equal_up_to_blank_lines"); ctx.observe("round trip of " + roots()[r].label + " '" + name + "' reproduces the text up to blank lines only (not counted as a difference)"); }
+        if (rt.status == 0) { ctx.nontrivial("roundtrip" + rk + rt.t1); if (ctx.samples.size() < 2) ctx.sample("round trip " + roots()[r].label + " '" + name + "': " + vmc::str(refp::physical_lines(rt.t1).size()) + " lines of parameter text reproduced"); }
+        if (rt.status >= 1 && rt.status <= 3) ctx.observe("part R skipped " + roots()[r].label + " '" + name + "': " + RT_NAMES[rt.status] + ": " + short_text(rt.status == 1 ? rt.start_kw : rt.t1, 160));
+        if (rt.status == 4) ctx.violation("clause=roundtrip;what=own_text_rejected" + rk, kase, "the parameter_info() text of the default object is rejected: " + short_text(rt.t2, 300) + " | text: " + short_text(rt.t1, 400));
+        if (rt.status == 5) ctx.violation("clause=roundtrip;what=own_text_differs" + rk, kase, "parameter_info() -> parse -> parameter_info() differs: " + first_diff(rt.t1, rt.t2));
+        if (rt.status == 6) ctx.violation("crash;kind=" + c.kind + ";site=" + c.site, kase, "default object of " + roots()[r].label + " '" + name + "' (parameter text consisting of the start keyword only): " + rt.msg);
+      }
+
+  // ---------------------------------------------------------------- part M: library-written seeds
+  struct Plan { std::string seed; std::vector<int> entries; bool bytes; std::vector<int> pair_entries; };
+  std::vector<Plan> plan;
+  if (!th)
+    plan = { { "img", { E_IMG_RFF, E_IMG_STREAM }, true, {} }, { "pdfs", { E_PD_RFF }, false, {} }, { "pdfs_tof", { E_PD_STREAM }, false, {} }, { "spect", { E_PD_RFF }, true, {} },
+             { "multi", { E_MULTI }, true, {} }, { "alltypes", { E_KP }, true, {} } };
+  else
+    plan = { { "img", { E_IMG_RFF, E_IMG_STREAM }, true, { E_IMG_RFF } }, { "img_short", { E_IMG_RFF }, true, {} }, { "dyn", { E_DYN_RFF }, true, { E_DYN_RFF } }, { "par", { E_PAR_RFF }, true, {} },
+             { "multi", { E_MULTI, E_DYN_RFF }, true, { E_MULTI } }, { "pdfs", { E_PD_RFF, E_PD_STREAM }, true, {} }, { "pdfs_tof", { E_PD_RFF, E_PD_STREAM }, true, { E_PD_STREAM } },
+             { "pdfs_arccorr", { E_PD_RFF }, true, {} }, { "pdfs_E953", { E_PD_RFF }, true, {} }, { "spect", { E_PD_RFF, E_PD_STREAM }, true, { E_PD_RFF } }, { "alltypes", { E_KP }, true, {} } };
+  const int NC = 16;
+  for (auto& P : plan)
+    {
+      if (stop) break;
+      Seed S; SeedLines A; bool built = false, usable = false;
+      for (int pass = 0; pass < (th ? 2 : 1) && !stop; ++pass) // pass 0: deviation 1 (+ bytes); pass 1: pairs
+        for (int entry : (pass == 0 ? P.entries : P.pair_entries))
+          for (int c = 0; c < NC && !stop; ++c)
+            {
+              if (!ctx.mine(unit++)) continue;
+              if (ctx.expired()) { stop = true; break; }
+              if (!built)
+                {
+                  built = true;
+                  usable = build_seed(P.seed, S);
+                  if (usable) { S.entries = P.entries; baseline(ctx, S); A = analyse_seed(S.text); ctx.count("seeds_built"); }
+                  else ctx.observe("seed '" + P.seed + "' could not be written by the library");
+                }
+              if (!usable || !S.base_canon.count(entry)) { ctx.count("work_units_skipped_seed_unusable"); continue; }
+              std::vector<Mutant> muts;
+              collect(S, A, c, NC, pass == 0, pass == 0 && P.bytes, pass == 1 && S.kind != "kp", muts);
+              exec_unit(ctx, S, A, entry, muts, P.seed + "/" + ENTRY_NAMES[entry] + "/" + vmc::str(c) + (pass ? "/pairs" : ""));
+              ctx.maxi("deviation_completed", pass + 1);
+            }
+    }
+  // ---------------------------------------------------------------- part M: parameter texts of the registered classes
+  {
+    static const char* QUICK_REG[] = { "OSMAPOSL", "Quadratic", "Ellipsoid", "Separable Gaussian" };
+    const int NCR = 4;
+    for (auto& rn : reg_ok_candidates)
+      {
+        if (stop) break;
+        if (!th) { bool sel = false; for (const char* q : QUICK_REG) if (rn.second == q) sel = true; if (!sel) continue; }
+        Seed S; SeedLines A; bool built = false, usable = false;
+        for (int c = 0; c < NCR && !stop; ++c)
+          {
+            if (!ctx.mine(unit++)) continue;
+            if (ctx.expired()) { stop = true; break; }
+            if (!built)
+              {
+                built = true;
+                usable = build_reg_seed(rn.first, rn.second, S);
+                if (usable) { baseline(ctx, S); usable = !S.entries.empty(); A = analyse_seed(S.text); if (usable) ctx.count("seeds_built"); }
+              }
+            if (!usable) { ctx.count("work_units_skipped_class_without_round_trip"); continue; }
+            std::vector<Mutant> muts;
+            collect(S, A, c, NCR, true, th && S.text.size() <= 4096, false, muts);
+            exec_unit(ctx, S, A, E_REG, muts, S.name + "/" + vmc::str(c));
+          }
+      }
+  }
+  ctx.maxi("value_alphabet_size", (long long)refp::value_alphabet().size());
+  return ctx.finish();
 }
